@@ -1288,7 +1288,9 @@ class DNA(symbolic.Object):
       elif len(self.children) == 1:
         child = self.children[0].to_numbers(flatten)
         if isinstance(child, tuple):
-          return tuple([self.value, list(child)])
+          # NOTE: a single child that has children of its own is kept as one
+          # element, so that the result parses back to the same structure.
+          return (self.value, [child])
         else:
           return (self.value, child)
       else:
